@@ -11,19 +11,6 @@ import conc_arms
 LEVEL = "exploration"
 
 
-def gen(ctx, module, cfg, tier, cap, seed, timeout=1500):
-    r = core.tlc(module, cfg, workers=12, timeout=timeout)
-    if not r.ok:
-        raise core.ToolError(f"{module}/{cfg}:\n{r.stdout[-2000:]}")
-    ctx.add_tlc(r)
-    cases = r.cases
-    if cap and len(cases) > cap:
-        rnd = random.Random(seed)
-        cases = rnd.sample(cases, cap)
-        ctx.notes.append(f"{cfg}: seeded sample of {cap} of {len(r.cases)} enumerated inputs")
-    return cases
-
-
 _src_cache = {}
 
 
@@ -41,21 +28,7 @@ def site_text(site):
 def run(tier, seed):
     ctx = core.Ctx("C16", tier, seed, LEVEL)
     quick = tier == "quick"
-    srcs = []   # (stream, abstract, src)
-    for c in gen(ctx, "MC_Soup", "MC_Soup_q" if quick else "MC_Soup_t", tier, 40000 if quick else 1500000, seed, 3000):
-        srcs.append(("soup", c, conc_arms.soup(c)))
-    for cfg in ("MC_Arms_q", "MC_Arms_q2"):
-        for c in gen(ctx, "MC_Arms", cfg, tier, 30000 if quick else None, seed, 3000):
-            srcs.append(("arms", c, conc_arms.arms(c)))
-    from checks import c15
-    for cfg in (["MC_C15_q2", "MC_C15_q3"] if quick else ["MC_C15_q1", "MC_C15_q2", "MC_C15_q3", "MC_C15_q4"]):
-        for c in gen(ctx, "MC_C15", cfg, tier, 10000 if quick else None, seed, 3000):
-            srcs.append(("c15", c, c15.concretize(c)))
-    for r in streams.repo_inputs():
-        srcs.append(("repo", {"origin": r["origin"]}, r["src"]))
-    for extra in ["union U { a: u8 }", "#[map(D)] union U { a: u8 }", "#[map(D)] struct S;", "#[map(D)] struct S();", "#[map(D)] struct S {}", "#[map(D)] enum E {}",
-                  "#[map(D)] struct S<'a, T: Clone, const N: usize>(&'a [T; N]);", "struct S;", "enum E {}"]:
-        srcs.append(("shapes", {}, extra))
+    srcs = streams.exploration_sources(ctx, tier, seed, which=("soup", "arms", "c15", "forms", "repo", "shapes"))
     inp = [{"id": i, "src": s[2]} for i, s in enumerate(srcs)]
     seen_sites = {}
     verdicts = {}
